@@ -4,6 +4,7 @@ import (
 	"context"
 	"fmt"
 	"net/url"
+	"sort"
 	"sync"
 	"time"
 
@@ -66,6 +67,7 @@ func (r *StaticEndpointRepository) GetAll(ctx context.Context) ([]*domain.Endpoi
 	if verifhook.Enabled {
 		endpoints = verifOrder(endpoints)
 	}
+	sortEndpoints(endpoints)
 	return endpoints, nil
 }
 
@@ -84,6 +86,7 @@ func (r *StaticEndpointRepository) GetHealthy(ctx context.Context) ([]*domain.En
 	if verifhook.Enabled {
 		healthy = verifOrder(healthy)
 	}
+	sortEndpoints(healthy)
 
 	return healthy, nil
 }
@@ -103,8 +106,22 @@ func (r *StaticEndpointRepository) GetRoutable(ctx context.Context) ([]*domain.E
 	if verifhook.Enabled {
 		routable = verifOrder(routable)
 	}
+	sortEndpoints(routable)
 
 	return routable, nil
+}
+
+// sortEndpoints puts a list that was built by ranging over the endpoint map into a stable order
+// (name, then URL). Go starts every map range at a random position, so without this each request
+// would see its candidates in a different order: round-robin, which walks the list by index,
+// would then repeat and skip endpoints instead of giving each its share.
+func sortEndpoints(endpoints []*domain.Endpoint) {
+	sort.SliceStable(endpoints, func(i, j int) bool {
+		if endpoints[i].Name != endpoints[j].Name {
+			return endpoints[i].Name < endpoints[j].Name
+		}
+		return endpoints[i].URLString < endpoints[j].URLString
+	})
 }
 
 func (r *StaticEndpointRepository) UpdateEndpoint(ctx context.Context, endpoint *domain.Endpoint) error {
